@@ -46,7 +46,7 @@ def _gen_cfg(rnd):
         "imputer": rnd.choice(["joint", "product", "default-arg", "tree-model", "tree-storage"]),
         "size": rnd.choice([1, 3, 10, 100]),
         "d": rnd.choice([2, 3, 4]),
-        "n_inner": rnd.choice([1, 2, 3]),
+        "n_inner": rnd.choice([1, 2, 3, 3, 5, 7]),
         "dyn": rnd.random() < .5,
         "alpha": rnd.choice([0.001, 0.1, 0.5]),
         "steps": rnd.choice([15, 40, 80]),
@@ -112,6 +112,9 @@ def interleaved(cfg, seed, cfg_b, seed_b):
     return out
 
 
+# RiverWrapper over label predictions keeps the set of labels seen so far: its output is not a function of the input alone, so a
+# caching twin would be a DIFFERENT model (first version of the identity twin raised a false alarm here; pure models only)
+STATEFUL_MODELS = ("river-bound", "river-labels")
 _NAMES = {}
 _STREAMS = {}     # observation lists are built once and REPLAYED (the same dict objects), like a user's in-memory data set
 
@@ -189,6 +192,17 @@ def scenario_gen(cfg, seed):
 
         def loss(y, p):    # noqa: F811
             return sum(v * (1.0 if (lab == "pos") == (y > 0) else 2.0) for lab, v in p.items()) + 0.25 * len(p)
+    if cfg.get("output_identity") == "shared" and cfg.get("model") not in STATEFUL_MODELS:
+        # a lookup-table / caching model: the SAME dict object is handed out for equal inputs (results must not depend on it)
+        cache, inner = {}, model
+
+        def model(x):      # noqa: F811
+            if not isinstance(x, dict):
+                return [model(xi) for xi in x]
+            key = tuple(sorted((repr(k), repr(v)) for k, v in x.items()))
+            if key not in cache:
+                cache[key] = inner(x)
+            return cache[key]
     kind, st_kind, imp_kind = cfg["explainer"], cfg["storage"], cfg["imputer"]
     if kind == "interval":
         st_kind = "interval"
@@ -288,7 +302,7 @@ def main(run):
                 "float stream, hashing bit patterns (float.hex) of importance values, variances and storage / reservoir contents after "
                 "EVERY call; compared bit-for-bit: (a) two replays in one process, (b) a replay after a junk preamble (other library "
                 "objects created and used, GC churn, sleep) before seeding, (c) replays in fresh subprocesses with the same "
-                "PYTHONHASHSEED with and without preamble, (d) sanity: a different seed must change some digest, otherwise the "
+                "PYTHONHASHSEED with and without preamble, (b2) a twin whose model hands out one shared dict object per distinct input instead of fresh equal dicts, (d) sanity: a different seed must change some digest, otherwise the "
                 "scenario is trivial and not counted; evaluations = replay comparisons; non-trivial = scenarios whose digests depend "
                 "on the seed, distinct by configuration")
     run.assumptions = ["same interpreter configuration includes PYTHONHASHSEED", "seeding precedes construction",
@@ -317,6 +331,7 @@ def main(run):
             keep = junk(jrnd)
             c = scenario(cfg, seed)
             other = scenario(cfg, seed + 1)
+            ident = scenario(dict(cfg, output_identity="shared"), seed) if cfg.get("model") not in STATEFUL_MODELS else None
             del keep
         except Exception as ex:
             run.ok(kind="in-process")
@@ -329,6 +344,12 @@ def main(run):
                 step = next((i for i, (p, q) in enumerate(zip(a, dgs)) if p != q), None)
                 run.violation("in-process-divergence" if name == "second replay" else "history-dependence",
                               f"{name} diverges at call {step} for cfg {cfg}", replay)
+        if ident is not None:
+            run.ok(kind="output-identity-twin")
+        if ident is not None and ident != a:
+            step = next((i for i, (p, q) in enumerate(zip(a, ident)) if p != q), None)
+            run.violation("object-identity-dependence", f"cfg {cfg}: a model handing out the same dict object for equal inputs (instead of equal "
+                                                        f"fresh dicts) changes the results from call {step} on", replay)
         if other != a:
             run.nontriv(cfg)
             run.count("seed-sensitive-scenarios")
